@@ -292,10 +292,22 @@ def run_numerical(ctx):
                     ctx.violation('NumericalGradient', method, 'not-an-approximation-of-the-gradient', maxdiff=float(np.abs(got - ref).max()))
                 # its derivative: a NumericalDerivative of the numerical gradient ~ Hessian action = derivative of the gradient
                 hd = util.to_cvec(sp, NG.derivative(x)(d))
-                refh = util.to_cvec(sp, f.gradient.derivative(x)(d))
+                if isinstance(sp, odl.DiscretizedSpace):
+                    refh = util.to_cvec(sp, f.gradient.derivative(x)(d))
+                else:       # f = sum w x_i^4: gradient 4 x^3 (the weight cancels), Hessian action 12 x^2 d
+                    refh = 12 * util.to_cvec(sp, x) ** 2 * util.to_cvec(sp, d)
                 tol = 5e-2 * max(1.0, float(np.abs(refh).max()))
                 if not np.allclose(hd, refh, rtol=0, atol=tol):
                     ctx.violation('NumericalGradient.derivative', method, 'not-an-approximation-of-the-derivative', maxdiff=float(np.abs(hd - refh).max()))
+                # the derived operator keeps the scheme of its parent: with method='central' and an explicit step the Hessian
+                # action of a quartic is second-order accurate (step sqrt(1e-6) = 1e-3: ~1e-6 relative; one-sided: ~1e-3)
+                if method == 'central' and not isinstance(sp, odl.DiscretizedSpace):
+                    ctx.ev('numerical-derivative')
+                    NGc = NumericalGradient(f, method='central', step=1e-6)
+                    hd2 = util.to_cvec(sp, NGc.derivative(x)(d))
+                    err = float(np.abs(hd2 - refh).max()) / max(1.0, float(np.abs(refh).max()))
+                    if err > 2e-5:
+                        ctx.violation('NumericalGradient.derivative', 'central;step-given', 'not-second-order-accurate', relerr=err)
             except (odl.OpNotImplementedError, NotImplementedError):
                 ctx.skip('no analytic reference')
             except Exception as e:
